@@ -1,18 +1,17 @@
 #!/bin/sh
 # Apply every seeded change to a SCRATCH copy of /repo (PYVC_REPO; /repo itself is not touched), run the quick check of the
 # properties listed for it, and write seeded/MATRIX.md.  Evidence files are restored afterwards (they must describe the
-# unchanged tree).
+# unchanged tree).  Seeds run 4 at a time (usage: tools/seed_matrix.sh [jobs]).
 cd /verif
 OUT=seeded/MATRIX.md
-echo "| seed | property it breaks | checks run | result | first failing obligation |" > $OUT
-echo "|---|---|---|---|---|" >> $OUT
-for S in $(ls seeded | grep -v MATRIX); do
+one() {
+  S="$1"; ROWS="$2"
   P=$(echo $S | cut -d- -f1)
   EXTRA=""
-  case $S in C09-b|C09-c) EXTRA="C10";; C02-a|C02-c) EXTRA="C19";; C02-b|C02-d) EXTRA="C10";; C05-b|C05-c) EXTRA="C10";; C03-b|C19-d) EXTRA="C19 C03";; C07-a|C01-b|C07-d) EXTRA="C01 C07";; C10-d) EXTRA="C05";; C14-c) EXTRA="C13";; esac
+  case $S in C09-b|C09-c) EXTRA="C10";; C02-a|C02-c) EXTRA="C19";; C02-b|C02-d) EXTRA="C10";; C05-b|C05-c) EXTRA="C10";; C03-b|C19-d) EXTRA="C19 C03";; C07-a|C01-b|C07-d) EXTRA="C01 C07";; C10-d) EXTRA="C05";; C14-c) EXTRA="C13";; C03-g) EXTRA="C16";; C03-h) EXTRA="C19";; C08-g) EXTRA="C20";; C15-g) EXTRA="C17";; esac
   D=$(mktemp -d /tmp/pyvc-seed.XXXXXX)
   mkdir -p "$D/repo"; cp -r /repo/snaxc /repo/util "$D/repo/"
-  ( cd "$D/repo" && git init -q . 2>/dev/null; git apply --unsafe-paths "/verif/seeded/$S/patch.diff" 2>/dev/null ) || { echo "| $S | $P | - | PATCH DOES NOT APPLY | |" >> $OUT; rm -rf "$D"; continue; }
+  ( cd "$D/repo" && git init -q . 2>/dev/null; git apply --unsafe-paths "/verif/seeded/$S/patch.diff" 2>/dev/null ) || { echo "| $S | $P | - | PATCH DOES NOT APPLY | |" > "$ROWS/$S"; rm -rf "$D"; return; }
   DONE=""
   for Q in $P $EXTRA; do
     case " $DONE " in *" $Q "*) continue;; esac
@@ -21,10 +20,18 @@ for S in $(ls seeded | grep -v MATRIX); do
     FIRST=$(echo "$R" | grep -m1 '^VIOLATION' | sed 's/.*replay=replays\///; s/\.json.*//' | cut -c1-110)
     N=$(echo "$R" | grep -c '^VIOLATION')
     case $RC in 1) RES="caught ($N VIOLATION lines)";; 0) RES="MISSED (exit 0)";; *) RES="exit $RC";; esac
-    echo "| $S | $P | $Q | $RES | $FIRST |" >> $OUT
+    echo "| $S | $P | $Q | $RES | $FIRST |" >> "$ROWS/$S"
   done
   rm -rf "$D"
-done
+}
+if [ "$1" = "--one" ]; then one "$2" "$3"; exit 0; fi
+J=${1:-4}
+ROWS=$(mktemp -d /tmp/pyvc-rows.XXXXXX)
+ls seeded | grep -v MATRIX | grep -v '^\.' | xargs -P "$J" -I{} sh "$0" --one {} "$ROWS"
+echo "| seed | property it breaks | checks run | result | first failing obligation |" > $OUT
+echo "|---|---|---|---|---|" >> $OUT
+for S in $(ls seeded | grep -v MATRIX | grep -v '^\.'); do cat "$ROWS/$S" >> $OUT; done
+rm -rf "$ROWS"
 git checkout -- evidence 2>/dev/null
 rm -f replays/*.json
-cat $OUT
+grep -vc caught $OUT
